@@ -3,7 +3,7 @@
    nat, positive, N, Z stay Coq datatypes.  No Extract Constant directives.
    Run coqc with the ocaml/ directory as working directory (files land in the cwd). *)
 From Coq Require Import Extraction ExtrOcamlBasic.
-From TV Require Import Base Index AP Iter Mult Mem Spec Guards Run Ops Reduce Shapeops RunZ.
+From TV Require Import Base Index AP Iter Mult Mem Spec Guards Run Ops Reduce Shapeops Linalg RunZ.
 Extraction Language OCaml.
 Extraction "model.ml"
   size dot rank_rm rank_cm unrank coords inboxb
